@@ -86,6 +86,9 @@ func c18LimitsFor(tier string) c18Limits {
 		return c18Limits{exhaustive: 12000, sampled: 2000, allCombos: true, genPerFmt: 30, lists: 150, wExhaustive: 20000, wSampled: 2000,
 			longLens: []int{65535, 65536, 65537, 1 << 17, 1 << 18, 1 << 20}}
 	}
+	if tier == "smoke" { // determinism self-test only
+		return c18Limits{exhaustive: 1200, sampled: 40, genPerFmt: 1, lists: 4, wExhaustive: 1500, wSampled: 40, longLens: []int{65536}}
+	}
 	return c18Limits{exhaustive: 6000, sampled: 400, allCombos: false, genPerFmt: 5, lists: 30, wExhaustive: 6000, wSampled: 300,
 		longLens: []int{65535, 65536, 65537, 1 << 17, 1 << 20}}
 }
@@ -474,6 +477,7 @@ func RunC18(cfg Config) (*ShardResult, error) {
 							o, sr := EvalRead(reader, d.Data, p)
 							res.Evaluations++
 							res.SimEvents += int64(sr.St.Reads + sr.St.Seeks)
+							res.Note("r", dh, reader, planKey(p), o.Key(), fmt.Sprint(sr.St.Reads, sr.FaultFired()))
 							if sr.FaultFired() {
 								res.Faults["read:"+c.kind]++
 								if c.withData {
@@ -547,6 +551,7 @@ func RunC18(cfg Config) (*ShardResult, error) {
 							v, sr := checkC18Read(sc, d.Cues)
 							res.Evaluations++
 							res.SimEvents += int64(sr.St.Reads)
+							res.Note("ll", reader, d.Name, planKey(p), fmt.Sprint(v != nil, sr.St.Reads))
 							res.Probes["overlong_line"]++
 							if seen.add(Key64("ll", reader, d.Name, planKey(p))) {
 								res.Distinct++
@@ -577,11 +582,11 @@ func RunC18(cfg Config) (*ShardResult, error) {
 	}
 	for si, src := range sources {
 		sh := canon.HashBytes(mustJSON(src))
-		sr := root.Derive("c18w-"+src.Name(), si)
 		for _, writer := range api.WriterFormats {
 			if !cfg.Mine(Key64("wsrc", sh, writer)) {
 				continue
 			}
+			sr := root.Derive("c18w-"+writer+"-"+src.Name(), si) // per (source, writer): draws must not depend on the sharding
 			cls0, _, w0, cues := evalWrite(src, writer, simio.WritePlan{})
 			if cls0 != "ok" {
 				res.Extra["write_pairs_failing_without_fault"]++
@@ -644,6 +649,7 @@ func RunC18(cfg Config) (*ShardResult, error) {
 					cls, et, w, _ := evalWrite(src, writer, simio.WritePlan{Fault: &f})
 					res.Evaluations++
 					res.SimEvents += int64(w.Writes)
+					res.Note("w", sh, writer, fmt.Sprint(f), cls, fmt.Sprint(w.Writes, w.FaultFired(), len(w.Buf)))
 					if w.FaultFired() {
 						res.Faults["write:"+f.Kind]++
 						if f.Short {
